@@ -10,13 +10,21 @@
 (c) correspondence: the binary64 instance of the Coq model (C16_Model.C16F, twiddle table from
     numpy) against the implementation on the same inputs (sizes <= 8 x 10);
 (d) replay of a stored case.
+
+Round 3: (e) the SHAPES of the kernels: the rational phases of the Coq model (C16K.ramp_phases /
+    C16K.fresnel_phases, model/C16_Model_Kernel.v) against the angle of the arrays
+    fourier_translation_operator / _compute_propagator_arrays build (modulo one turn, tolerance
+    following the float32 phase magnitude); (f) ProbeParametric / ObjectDIP variants of the
+    operators; real-valued, complex64 and non-contiguous inputs; patches wrapping around both
+    axes; per-slice scatter; gradient_step energy / fixed-point identities.
 """
 from __future__ import annotations
 
 import json
 import math
+from fractions import Fraction
 
-from ..common import Ctx, cfloat, cnl, cz
+from ..common import Ctx, cfloat, cnl, cq, cz
 
 LEVEL = "proof"
 
@@ -24,6 +32,12 @@ PRE = ("From Coq Require Import ZArith List PrimFloat.\n"
        "From QV.lib Require Import Prelude DFT_Float.\n"
        "From QV.model Require Import C16_Model.\n"
        "Import ListNotations.\nOpen Scope list_scope.\n")
+
+# exact rational phases of the kernel shapes (Q_scope is open there: kept apart from PRE)
+PREK = ("From Coq Require Import ZArith List QArith.\n"
+        "From QV.lib Require Import Prelude.\n"
+        "From QV.model Require Import C16_Model C16_Model_Kernel.\n"
+        "Import ListNotations.\nOpen Scope list_scope.\n")
 
 # ---------------------------------------------------------------------------------- tolerances
 TOL_EXACT = 1e-11        # float64 identities (relative to the stated scale)
@@ -33,6 +47,14 @@ TOL_C64_ADD = 2e-4       # p(d1) p(d2) = p(d1 + d2): float32 rounding of phases 
 TOL_MIXED = 1e-6         # mixed-state projection: the code adds eps = 1e-9 to every Fourier coefficient
 EST_FLOOR = 1e-2         # "where the estimate is non-zero", with margin for that eps
 TOL_PIPE = 2e-4          # whole pipeline in the library's own complex64
+TOL_C64_IN = 2e-5        # complex64 INPUT arrays through a float64 operator (fft in single precision)
+# phase of the ramp (turns): the frequency grid / the product -2 pi i k are rounded to float32, measured
+# <= 4.6e-8 (1 + |s|) over 400 random ramps
+TOL_RAMP_TURNS = 4e-7
+# phase of the Fresnel kernel (radians): evaluated in float32 / complex64, so its error follows the phase
+# magnitude; measured <= 2.1 (1e-6 + eps32 |phase|) over 1500 kernels incl. low energy on fine grids
+TOL_KERNEL_RAD0 = 1e-5
+TOL_KERNEL_REL = 8 * 1.2e-7
 
 SHAPES_ORACLE = [(4, 4), (5, 5), (4, 6), (5, 6), (6, 5), (7, 5), (5, 8), (8, 10), (9, 6), (7, 9), (3, 11),
                  (12, 7), (10, 16), (13, 8), (16, 16), (15, 15), (2, 9), (1, 6), (6, 1)]
@@ -59,6 +81,84 @@ class Env:
             self._pt[k] = self.toy.build_toy(seed=3, scan=(2, 3), roi=tuple(roi), num_probes=modes,
                                              num_slices=slices, obj_type=obj_type, rng_seed=7)
         return self._pt[k]
+
+    def pt_parametric(self, roi, slices=1):
+        """the same toy problem with a ProbeParametric probe model (one mode: the class supports no more)"""
+        k = ("parametric", tuple(roi), slices)
+        if k not in self._pt:
+            np = self.np
+            from quantem.core.datastructures import Dataset4dstem
+            from quantem.diffractive_imaging.dataset_models import PtychographyDatasetRaster
+            from quantem.diffractive_imaging.detector_models import DetectorPixelated
+            from quantem.diffractive_imaging.object_models import ObjectPixelated
+            from quantem.diffractive_imaging.probe_models import ProbeParametric
+            from quantem.diffractive_imaging.ptychography import Ptychography
+            data, _probe, _obj, _lam = self.toy.simulate(3, (2, 3), tuple(roi), 2.0, 0.5, 80e3, 20.0, 50.0)
+            d = Dataset4dstem.from_array(data.astype(np.float32), sampling=(2.0, 2.0, 1.0 / (roi[0] * 0.5), 1.0 / (roi[1] * 0.5)),
+                                         units=("A", "A", "A^-1", "A^-1"))
+            pd = PtychographyDatasetRaster.from_dataset4dstem(d, verbose=0)
+            pd.preprocess(com_fit_function="no_shift", plot_rotation=False, plot_com=False, probe_energy=80e3,
+                          force_com_rotation=0, force_com_transpose=False)
+            om = ObjectPixelated.from_uniform(num_slices=slices, slice_thicknesses=None if slices == 1 else 2.0,
+                                              obj_type="pure_phase")
+            pm = ProbeParametric.from_params(probe_params={"energy": 80e3, "defocus": 50.0, "semiangle_cutoff": 20.0})
+            pt = Ptychography.from_models(dset=pd, obj_model=om, probe_model=pm, detector_model=DetectorPixelated(), rng=7, verbose=0)
+            pt.preprocess(obj_padding_px=(0, 0))
+            self._pt[k] = pt
+        return self._pt[k]
+
+    def object_dip(self, slices, H, W, obj_type, complex_model, seed):
+        """an ObjectDIP around a tiny (untrained, seeded) convolutional network"""
+        torch = self.torch
+        from quantem.diffractive_imaging.object_models import ObjectDIP
+        dt = torch.complex64 if complex_model else torch.float32
+
+        class Net(torch.nn.Module):
+            def __init__(self):
+                super().__init__()
+                self.dtype = dt
+                self.c = torch.nn.Conv2d(slices, slices, 3, padding=1, dtype=dt)
+
+            def forward(self, x):
+                return self.c(x)
+
+        g = torch.Generator().manual_seed(int(seed))
+        net = Net()
+        with torch.no_grad():
+            for prm in net.parameters():
+                prm.copy_(torch.randn(prm.shape, generator=g, dtype=torch.float32).to(dt) * 0.4)
+        inp = torch.randn((slices, H, W), generator=g, dtype=torch.float32).to(dt)
+        return ObjectDIP.from_model(net, inp, num_slices=slices, slice_thicknesses=None if slices == 1 else 2.0,
+                                    obj_type=obj_type, input_noise_std=0.0, rng=3)
+
+
+def wavelength_A(energy_eV):
+    """relativistic electron wavelength (Angstrom), CODATA constants; independent of the library"""
+    m, e, c, h = 9.1093837015e-31, 1.602176634e-19, 299792458.0, 6.62607015e-34
+    return h / math.sqrt(2 * m * e * energy_eV) / math.sqrt(1 + e * energy_eV / (2 * m * c ** 2)) * 1e10
+
+
+def _turn_diff(got_turns, want_fracs):
+    """| got - want | modulo one turn, element-wise; want given as exact Fractions"""
+    import numpy as np
+    want = np.array([[float(Fraction(w) % 1) for w in row] for row in want_fracs], dtype=np.float64)
+    if want.shape != got_turns.shape:
+        return None
+    return np.abs((got_turns - want + 0.5) % 1.0 - 0.5)
+
+
+def _strided(E, a, backend):
+    """the same values as a non-contiguous view (every other column of a wider buffer)"""
+    np = E.np
+    a = np.asarray(a)
+    big = np.zeros(a.shape[:-1] + (2 * a.shape[-1],), dtype=a.dtype)
+    big[..., ::2] = a
+    if backend == "torch":
+        v = E.torch.as_tensor(big)[..., ::2]
+        assert not v.is_contiguous() or a.shape[-1] <= 1
+        return v
+    v = big[..., ::2]
+    return v
 
 
 def _c(E, rng, shape, scale=1.0):
@@ -157,14 +257,26 @@ def case_translate(E, p):
     rng = np.random.default_rng(p["seed"])
     n1, n2 = p["shape"]
     x = _c(E, rng, (n1, n2))
+    c64 = p.get("dtype", "c128") == "c64"
+    if c64:
+        x = x.astype(np.complex64)
     pos = np.array(p["shifts"], dtype=np.float64)            # (P, 2)
     ish = np.array([p["int_shift"]], dtype=np.float64)
     fails, coq = [], []
-    conv = (lambda a: torch.as_tensor(a)) if p["backend"] == "torch" else (lambda a: np.array(a))
-    en = float((np.abs(x) ** 2).sum())
+    backend = p["backend"]
+    conv = (lambda a: torch.as_tensor(a)) if backend == "torch" else (lambda a: np.array(a))
+    strided = p.get("layout", "contig") == "strided"
+    convx = (lambda a: _strided(E, a, backend)) if strided else conv
+    en = float((np.abs(x.astype(np.complex128)) ** 2).sum())
     mx = float(np.abs(x).max())
+    # a complex64 array is transformed in single precision: the identities hold to float32 rounding
+    t_exact = TOL_C64_IN if c64 else TOL_EXACT
+    t_add = TOL_C64_IN if c64 else 1e-10
+    kind = "complex64" if c64 else "complex"
+    if strided:
+        kind += " non-contiguous"
     with torch.no_grad():
-        out = _n(E, pu.fourier_shift_expand(conv(x), conv(pos)))
+        out = _n(E, pu.fourier_shift_expand(convx(x), conv(pos)))
         ramp = _n(E, pu.fourier_translation_operator(conv(pos), (n1, n2)))
         # the operator itself: unit modulus, separable, a character of the shift
         r = float(np.abs(np.abs(ramp) - 1.0).max())
@@ -183,45 +295,95 @@ def case_translate(E, p):
                           % ((n1, n2), len(pos), out.shape)))
             return {"fails": fails, "coq": coq, "info": {}}
         for i in range(len(pos)):
-            e2 = float((np.abs(out[i]) ** 2).sum())
-            if not abs(e2 - en) <= TOL_EXACT * en:
-                fails.append(("translate-energy", "fourier_shift_expand by %s of a complex %s array changes the total intensity "
-                              "%.17g -> %.17g" % (pos[i].tolist(), (n1, n2), en, e2)))
+            e2 = float((np.abs(out[i].astype(np.complex128)) ** 2).sum())
+            if not abs(e2 - en) <= t_exact * en:
+                fails.append(("translate-energy", "fourier_shift_expand by %s of a %s %s array changes the total intensity "
+                              "%.17g -> %.17g" % (pos[i].tolist(), kind, (n1, n2), en, e2)))
                 break
         # additivity: shift by s then by t = shift by s + t
         if len(pos) >= 2:
             two = _n(E, pu.fourier_shift_expand(conv(out[0]), conv(pos[1:2])))[0]
-            one = _n(E, pu.fourier_shift_expand(conv(x), conv(pos[0:1] + pos[1:2])))[0]
+            one = _n(E, pu.fourier_shift_expand(convx(x), conv(pos[0:1] + pos[1:2])))[0]
             r = _rel(E, two, one, mx)
-            if not r <= 1e-10:
-                fails.append(("translate-additive", "shifting a %s array by %s then by %s differs from shifting by the sum (%.3g "
-                              "of max|x|)" % ((n1, n2), pos[0].tolist(), pos[1].tolist(), r)))
+            if not r <= t_add:
+                fails.append(("translate-additive", "shifting a %s %s array by %s then by %s differs from shifting by the sum (%.3g "
+                              "of max|x|)" % (kind, (n1, n2), pos[0].tolist(), pos[1].tolist(), r)))
         # integer translation is a circular roll
-        rolled = _n(E, pu.fourier_shift_expand(conv(x), conv(ish)))[0]
+        rolled = _n(E, pu.fourier_shift_expand(convx(x), conv(ish)))[0]
         want = np.roll(x, (int(ish[0, 0]), int(ish[0, 1])), axis=(0, 1))
         r = _rel(E, rolled, want, mx)
-        if not r <= TOL_F32GRID:
-            fails.append(("translate-integer-roll", "fourier_shift_expand of a %s array by the integer vector %s differs from "
-                          "np.roll by %.3g of max|x|" % ((n1, n2), ish[0].tolist(), r)))
+        if not r <= TOL_F32GRID + (TOL_C64_IN if c64 else 0.0):
+            fails.append(("translate-integer-roll", "fourier_shift_expand of a %s %s array by the integer vector %s differs from "
+                          "np.roll by %.3g of max|x|" % (kind, (n1, n2), ish[0].tolist(), r)))
         # ... and the inverse integer translation restores the array
         back = _n(E, pu.fourier_shift_expand(conv(rolled), conv(-ish)))[0]
         r = _rel(E, back, x, mx)
-        if not r <= 2 * TOL_F32GRID:
+        if not r <= 2 * (TOL_F32GRID + (TOL_C64_IN if c64 else 0.0)):
             fails.append(("translate-inverse", "shift by %s then by its negative does not restore the array (%.3g)"
                           % (ish[0].tolist(), r)))
+        # sub-pixel: shift by s then by -s restores the array
+        back = _n(E, pu.fourier_shift_expand(conv(out[0]), conv(-pos[0:1])))[0]
+        r = _rel(E, back, x, mx)
+        if not r <= t_add:
+            fails.append(("translate-inverse", "shift of a %s %s array by %s then by its negative does not restore it (%.3g)"
+                          % (kind, (n1, n2), pos[0].tolist(), r)))
+        # ---- real-valued input (float64): the function takes the real part of the same operator.  What the
+        # property says about it: it IS the translation of the array (real part of the complex path; exact
+        # for an array with zero imaginary part up to the Nyquist term), integer translations are rolls for
+        # every shape, and for odd x odd shapes (no Nyquist frequency: the ramp is Hermitian) energy and
+        # additivity hold as for complex input
+        if not c64:
+            xr = np.ascontiguousarray(x.real)
+            mr = float(np.abs(xr).max())
+            outr = _n(E, pu.fourier_shift_expand(convx(xr), conv(pos)))
+            refc = _n(E, pu.fourier_shift_expand(conv(xr.astype(np.complex128)), conv(pos)))
+            if np.iscomplexobj(outr) or outr.shape != refc.shape:
+                fails.append(("translate-real-input-shape", "fourier_shift_expand of a real %s array returned dtype %s shape %s"
+                              % ((n1, n2), outr.dtype, outr.shape)))
+            else:
+                r = _rel(E, outr, refc.real, mr)
+                if not r <= 1e-10:
+                    fails.append(("translate-real-input-value", "fourier_shift_expand of a REAL %s array by %s is not the real part of "
+                                  "the translation of the same array given as complex (differs by %.3g of max|x|)"
+                                  % ((n1, n2), pos[0].tolist(), r)))
+                rr = _n(E, pu.fourier_shift_expand(convx(xr), conv(ish)))[0]
+                r = _rel(E, rr, np.roll(xr, (int(ish[0, 0]), int(ish[0, 1])), axis=(0, 1)), mr)
+                if not r <= TOL_F32GRID:
+                    fails.append(("translate-real-input-integer-roll", "fourier_shift_expand of a REAL %s array by the integer vector %s "
+                                  "differs from np.roll by %.3g of max|x|" % ((n1, n2), ish[0].tolist(), r)))
+                if n1 % 2 == 1 and n2 % 2 == 1:
+                    enr = float((xr ** 2).sum())
+                    e2 = float((outr[0] ** 2).sum())
+                    if not abs(e2 - enr) <= 1e-10 * enr:
+                        fails.append(("translate-real-input-energy", "fourier_shift_expand by %s of a REAL odd-sized %s array changes the "
+                                      "total intensity %.17g -> %.17g" % (pos[0].tolist(), (n1, n2), enr, e2)))
     if p.get("coq"):
         g = _grid(E, n1, n2)
         s = pos[0]
         hr = np.exp(-2j * np.pi * np.fft.fftfreq(n1) * s[0])
         hc = np.exp(-2j * np.pi * np.fft.fftfreq(n2) * s[1])
-        tol = TOL_F32GRID * (1.0 + float(np.abs(s).max()))
+        tol = TOL_F32GRID * (1.0 + float(np.abs(s).max())) + (TOL_C64_IN if c64 else 0.0)
         coq.append(("shift", "let g := %s in C16F.cmp2 g (C16F.shift g %s %s %s) %s"
                     % (g, _l1(hr), _l1(hc), _sig2(x), _l2(out[0])), tol, "cmp"))
         hr = np.exp(-2j * np.pi * np.fft.fftfreq(n1) * ish[0, 0])
         hc = np.exp(-2j * np.pi * np.fft.fftfreq(n2) * ish[0, 1])
         coq.append(("shift-int", "let g := %s in C16F.cmp2 g (C16F.shift g %s %s %s) %s"
-                    % (g, _l1(hr), _l1(hc), _sig2(x), _l2(rolled)), TOL_F32GRID * (1.0 + float(np.abs(ish).max())), "cmp"))
-    return {"fails": fails, "coq": coq, "info": {}}
+                    % (g, _l1(hr), _l1(hc), _sig2(x), _l2(rolled)),
+                    TOL_F32GRID * (1.0 + float(np.abs(ish).max())) + (TOL_C64_IN if c64 else 0.0), "cmp"))
+    # ---- the SHAPE of the ramp: exponent -(fftfreq(k1) s1 + fftfreq(k2) s2) turns from the Coq model (exact
+    # rationals) against the angle of the array the code builds, modulo one turn
+    info = {}
+    if p.get("coq") or p.get("phase"):
+        exprs = []
+        for i in range(min(len(pos), 2)):
+            exprs.append("C16K.ramp_phases %d%%nat %d%%nat %s %s" % (n1, n2, cq(Fraction(float(pos[i, 0]))), cq(Fraction(float(pos[i, 1])))))
+        info["turns"] = {"ramp-phase": [(np.angle(ramp[i]) / (2 * np.pi),
+                                         TOL_RAMP_TURNS * (1.0 + float(np.abs(pos[i]).max())),
+                                         "fourier_translation_operator(%s, %s)" % (pos[i].tolist(), (n1, n2)))
+                                        for i in range(min(len(pos), 2))]}
+        for e in exprs:
+            coq.append(("ramp-phase", e, 0.0, "turns"))
+    return {"fails": fails, "coq": coq, "info": info}
 
 
 def _propagators(E, pt, sampling, thick, energy, tilt):
@@ -249,9 +411,14 @@ def case_propagate(E, p):
     samp = tuple(p["sampling"])
     fails, coq = [], []
     x = _c(E, rng, (n1, n2))
-    en = float((np.abs(x) ** 2).sum())
+    if p.get("dtype", "c128") == "c64":
+        x = x.astype(np.complex64)              # the library's own dtype for exit waves
+    en = float((np.abs(x.astype(np.complex128)) ** 2).sum())
     mx = float(np.abs(x).max())
     desc = "shape %s, distances %s A, sampling %s A, %g eV, tilt %s mrad" % ((n1, n2), thick, samp, p["energy"], p["tilt"])
+    if p.get("probe_class") == "parametric":
+        pt = E.pt_parametric((n1, n2), 2)
+        desc += ", ProbeParametric"
     P = _propagators(E, pt, samp, thick, p["energy"], p["tilt"])
     Pn = _propagators(E, pt, samp, [-t for t in thick], p["energy"], p["tilt"])
     Ps = _propagators(E, pt, samp, [thick[0] + thick[1]], p["energy"], p["tilt"])
@@ -262,10 +429,12 @@ def case_propagate(E, p):
     if not r <= TOL_C64:
         fails.append(("propagator-unit-modulus", "propagator array is not unit-modulus (| |p| - 1 | = %.3g): %s" % (r, desc)))
 
+    strided = p.get("layout", "contig") == "strided"
+
     def prop(a, k, which="pt"):
         with torch.no_grad():
             f = pt._propagate_array if which == "pt" else pt.obj_model._propagate_array
-            return _n(E, f(_t(E, a), _t(E, k)))
+            return _n(E, f(_strided(E, a, "torch") if strided else _t(E, a), _t(E, k)))
 
     y = prop(x, P[0])
     e2 = float((np.abs(y) ** 2).sum())
@@ -291,10 +460,45 @@ def case_propagate(E, p):
     if not r <= TOL_C64_ADD + 8 * 1.2e-7 * phase:
         fails.append(("propagate-additive", "propagating by %g A then %g A differs from propagating by the sum (%.3g): %s"
                       % (thick[0], thick[1], r, desc)))
+    # the analytic back-propagation (ObjectPixelated.backward) uses the conjugate kernel: it undoes the propagation,
+    # and it is the kernel of the negated distance
+    back = prop(y, np.conj(P[0]))
+    r = _rel(E, back, x, mx)
+    if not r <= TOL_C64:
+        fails.append(("propagate-conjugate-inverse", "propagating by %g A and back with the conjugate kernel is not the identity "
+                      "(%.3g of max|x|): %s" % (thick[0], r, desc)))
+    r = float(np.abs(np.conj(P.astype(np.complex128)) - Pn).max())
+    if not r <= TOL_C64 + TOL_KERNEL_REL * phase:
+        fails.append(("propagator-conjugate", "the kernel of the negated distance is not the conjugate kernel (%.3g): %s" % (r, desc)))
+    # wavelength used by the library against the relativistic formula (the kernel model takes lambda as an input)
+    from quantem.core.utils.utils import electron_wavelength_angstrom
+    lam_impl = float(electron_wavelength_angstrom(p["energy"]))
+    if not abs(lam_impl - wavelength_A(p["energy"])) <= 1e-6 * lam_impl:
+        fails.append(("electron-wavelength", "electron_wavelength_angstrom(%g) = %.12g, relativistic formula gives %.12g"
+                      % (p["energy"], lam_impl, wavelength_A(p["energy"]))))
+    info = {}
     if p.get("coq"):
         g = _grid(E, n1, n2)
-        coq.append(("prop", "let g := %s in C16F.cmp2 g (C16F.prop g %s %s) %s" % (g, _sig2(P[0]), _sig2(x), _l2(y)), 1e-12, "cmp"))
-    return {"fails": fails, "coq": coq, "info": {}}
+        tolp = 1e-12 if x.dtype == np.complex128 else TOL_C64_IN
+        coq.append(("prop", "let g := %s in C16F.cmp2 g (C16F.prop g %s %s) %s" % (g, _sig2(P[0]), _sig2(x), _l2(y)), tolp, "cmp"))
+    # ---- the SHAPE of the kernel: exponent -(1/2) lambda dz (kr^2 + kc^2) - dz (tan_r kr + tan_c kc) turns from the Coq
+    # model (exact rationals of the float64 inputs) against the angle of the array the code builds, modulo one turn;
+    # the code evaluates the phase in float32, so the tolerance follows the phase magnitude
+    if p.get("coq") or p.get("phase"):
+        lam_q = Fraction(lam_impl)
+        tr = Fraction(math.tan(float(np.float32(p["tilt"][0])) / 1e3))
+        tc = Fraction(math.tan(float(np.float32(p["tilt"][1])) / 1e3))
+        d1, d2 = Fraction(float(samp[0])), Fraction(float(samp[1]))
+        items = []
+        for arr, dzs in ((P, thick), (Pn, [-t for t in thick])):
+            for t in range(1 if arr is Pn else len(thick)):
+                dz = Fraction(float(dzs[t]))
+                coq.append(("kernel-phase", "C16K.fresnel_phases %d%%nat %d%%nat %s %s %s %s %s %s"
+                            % (n1, n2, cq(d1), cq(d2), cq(lam_q), cq(tr), cq(tc), cq(dz)), 0.0, "turns"))
+                items.append((np.angle(arr[t].astype(np.complex128)) / (2 * np.pi), ("rad", TOL_KERNEL_RAD0, TOL_KERNEL_REL),
+                              "_compute_propagator_arrays: dz = %g A, %s" % (dzs[t], desc)))
+        info["turns"] = {"kernel-phase": items}
+    return {"fails": fails, "coq": coq, "info": info}
 
 
 def _ref_patch_indices(E, roi, H, W, r0, c0):
@@ -315,6 +519,10 @@ def case_adjoint(E, p):
     pad = tuple(p["pad"])
     H, W = (int(v) for v in pt.dset._obj_shape_full_2d(pad))
     pos = np.array(p["positions"], dtype=np.float64)
+    if p.get("wrap_both"):
+        # anchor at the last row / column of the object (plus whole periods): the patch covers rows H-1, 0, ... and
+        # columns W-1, 0, ...: it wraps around BOTH axes
+        pos = np.array([[H - 1 + H * int(q[0] // 8), W - 1 + W * int(q[1] // 8)] for q in pos], dtype=np.float64)
     if p["index_mode"] == "patch":
         ds = pt.dset
         npos = int(ds.scan_positions_px.shape[0])             # the setter validates the number of positions
@@ -354,38 +562,74 @@ def case_adjoint(E, p):
         idx = flat.reshape(len(pos), n1, n2)
         idx_t = torch.tensor(idx, dtype=torch.int32)
         r0 = c0 = None
+    c64 = p.get("dtype", "c128") == "c64"
+    strided = p.get("layout", "contig") == "strided"
     obj = _c(E, rng, (ns, H, W))
     vals = _c(E, rng, idx.shape)
     rvals = rng.standard_normal(idx.shape)
-    desc = "ROI %s, object %s, %d positions (%s indices, %d repeated)" % (
-        (n1, n2), (H, W), len(pos), p["index_mode"], idx.size - len(set(idx.reshape(-1).tolist())))
+    valss = _c(E, rng, (ns,) + idx.shape)                  # one stack of patch values per slice
+    if c64:
+        obj, vals, valss, rvals = obj.astype(np.complex64), vals.astype(np.complex64), valss.astype(np.complex64), rvals.astype(np.float32)
+    t_sc, t_adj = (5e-6, 2e-5) if c64 else (1e-13, 1e-12)
+    wraps = ""
+    if p["index_mode"] == "patch" and idx.ndim == 3 and n1 > 1 and n2 > 1:
+        rows, cols = idx[0] // W, idx[0] % W
+        both = (rows.max() - rows.min() == H - 1 and rows.min() == 0 and cols.max() - cols.min() == W - 1 and cols.min() == 0
+                and len(np.unique(rows)) < H + 1 and n1 < H and n2 < W)
+        if both:
+            wraps = ", first patch wraps around both axes"
+        info["wraps_both"] = bool(both)
+        if p.get("wrap_both") and not both and n1 < H and n2 < W:
+            corr.append(("patch-indices-correspondence", "a patch anchored at the last row and column of the object %s does not "
+                         "wrap around both axes (rows %s, columns %s)" % ((H, W), sorted(set(rows.ravel().tolist())),
+                                                                          sorted(set(cols.ravel().tolist())))))
+    desc = "ROI %s, object %s, %d positions (%s indices, %d repeated%s)%s%s" % (
+        (n1, n2), (H, W), len(pos), p["index_mode"], idx.size - len(set(idx.reshape(-1).tolist())), wraps,
+        ", complex64" if c64 else "", ", non-contiguous tensors" if strided else "")
+    tv = (lambda a: _strided(E, a, "torch")) if strided else (lambda a: _t(E, a))
+    if strided:
+        idx_t = _strided(E, _n(E, idx_t), "torch")
     with torch.no_grad():
-        patches = _n(E, pt.obj_model._get_obj_patches(_t(E, obj), idx_t))
-        scat = _n(E, pu.sum_patches(_t(E, vals), idx_t, (H, W)))
-        rscat = _n(E, pu.sum_patches_base(_t(E, rvals), idx_t, (H, W)))
-        rscat2 = _n(E, pu.sum_patches(_t(E, rvals), idx_t, (H, W)))
+        patches = _n(E, pt.obj_model._get_obj_patches(tv(obj), idx_t))
+        scat = _n(E, pu.sum_patches(tv(vals), idx_t, (H, W)))
+        rscat = _n(E, pu.sum_patches_base(tv(rvals), idx_t, (H, W)))
+        rscat2 = _n(E, pu.sum_patches(tv(rvals), idx_t, (H, W)))
+        # slice by slice, as ObjectPixelated.backward does (sum_patches has no batch dimension of its own: values and
+        # indices must have the same number of elements)
+        scats = np.stack([_n(E, pu.sum_patches(tv(valss[s_]), idx_t, (H, W))) for s_ in range(ns)])
     want_g = obj.reshape(ns, -1)[:, idx]
     if patches.shape != want_g.shape or not np.array_equal(patches, want_g):
         fails.append(("gather-values", "_get_obj_patches does not return obj_flat[:, indices]: " + desc))
     for nm, sc, vv in (("sum_patches", scat, vals), ("sum_patches_base", rscat, rvals), ("sum_patches(real)", rscat2, rvals)):
-        ref_s = np.zeros(H * W, dtype=vv.dtype)
+        ref_s = np.zeros(H * W, dtype=np.complex128 if np.iscomplexobj(vv) else np.float64)
         np.add.at(ref_s, idx.reshape(-1), vv.reshape(-1))
-        if sc.shape != (H, W) or not _rel(E, sc.reshape(-1), ref_s, float(np.abs(vv).max()) * 4) <= 1e-13:
+        if sc.shape != (H, W) or not _rel(E, sc.reshape(-1), ref_s, float(np.abs(vv).max()) * 4) <= t_sc:
             fails.append(("scatter-index-add", "%s is not the accumulate-with-repeats scatter (np.add.at): %s" % (nm, desc)))
             if sc.shape != (H, W):
                 continue
         for s in range(ns if patches.shape == want_g.shape else 0):
-            lhs = complex((patches[s] * vv).sum())
-            rhs = complex((obj[s] * sc).sum())
+            lhs = complex((patches[s].astype(np.complex128) * vv).sum())
+            rhs = complex((obj[s].astype(np.complex128) * sc).sum())
             scale = float(np.abs(patches[s] * vv).sum()) + 1e-300
-            if not abs(lhs - rhs) <= 1e-12 * scale:
+            if not abs(lhs - rhs) <= t_adj * scale:
                 fails.append(("scatter-gather-adjoint", "<gather(obj), v> = %r but <obj, %s(v)> = %r: %s" % (lhs, nm, rhs, desc)))
                 break
+    # all slices at once: sum_s <obj_s[idx], v_s> = sum_s <obj_s, sum_patches(v_s)>
+    if patches.shape == want_g.shape and scats.shape == (ns, H, W):
+        lhs = complex((patches.astype(np.complex128) * valss).sum())
+        rhs = complex((obj.astype(np.complex128) * scats).sum())
+        scale = float(np.abs(patches * valss).sum()) + 1e-300
+        if not abs(lhs - rhs) <= t_adj * scale:
+            fails.append(("scatter-gather-adjoint-slices", "sum over %d slices of <gather(obj_s), v_s> = %r but of <obj_s, sum_patches(v_s)> "
+                          "= %r: %s" % (ns, lhs, rhs, desc)))
     if p.get("coq") and not fails:
         size = H * W
         fidx = idx.reshape(-1).tolist()
         coq.append(("scatter", "C16F.cmp1 (C16F.fscatter %d%%nat %s %s) %s" % (size, cnl(fidx), _l1(vals.reshape(-1)), _l1(scat.reshape(-1))),
-                    1e-13, "cmp"))
+                    t_sc, "cmp"))
+        if ns > 1:     # the last slice of the per-slice scatter
+            coq.append(("scatter-slice", "C16F.cmp1 (C16F.fscatter %d%%nat %s %s) %s"
+                        % (size, cnl(fidx), _l1(valss[ns - 1].reshape(-1)), _l1(scats[ns - 1].reshape(-1))), t_sc, "cmp"))
         coq.append(("gather", "C16F.cmp1 (C16F.fgather %s %s) %s" % (_l1(obj[0].reshape(-1)), cnl(fidx), _l1(patches[0].reshape(-1))),
                     0.0, "cmp"))
         if r0 is not None:
@@ -530,6 +774,23 @@ def case_fproj(E, p):
                       "max|psi'|: %s" % (r, desc)))
     if not _rel(E, G, P1 - psi, max(float(np.abs(psi).max()), 1e-300)) <= 1e-13:
         fails.append(("gradient-step-definition", "gradient_step != fourier_projection - overlap: " + desc))
+    # gradient_step identities (theorems C16_gradient_step_*): the step vanishes at a projected exit wave ...
+    with torch.no_grad():
+        G2 = _n(E, pt.gradient_step(_t(E, a), _t(E, P1)))
+    gdom = np.ones(B, dtype=bool) if M == 1 else dom.reshape(B, -1).all(axis=1)      # mixed: patterns whose estimate is non-zero everywhere
+    if gdom.any():
+        r = float(np.abs(G2[:, gdom]).max()) / max(float(np.abs(P1).max()), 1e-300)
+        if not r <= tol:
+            fails.append(("gradient-step-fixed-point", "gradient_step at a projected exit wave is not zero (%.3g of max|psi'|): %s" % (r, desc)))
+    # ... and (single state) its squared norm is the squared amplitude misfit sum_k (a_k - |F_k|)^2
+    if M == 1:
+        Fm = np.abs(np.fft.fft2(psi[0], norm="ortho"))
+        want_e = ((np.fft.ifftshift(a, axes=(-2, -1)) - Fm) ** 2).sum(axis=(-2, -1))
+        got_e = (np.abs(G[0]) ** 2).sum(axis=(-2, -1))
+        r = float(np.abs(got_e - want_e).max() / max(float(want_e.max()), 1e-300))
+        if not r <= 1e-11:
+            fails.append(("gradient-step-energy", "|gradient_step|^2 per pattern %s != squared amplitude misfit sum (a - |F|)^2 %s: %s"
+                          % (got_e.tolist(), want_e.tolist(), desc)))
     if p.get("coq") and p["psi_kind"] == "random":
         g = _grid(E, n1, n2)
         if M == 1:
@@ -586,7 +847,88 @@ def case_pipeline(E, p):
     return {"fails": fails, "coq": [], "info": {"unit_modulus": float(np.abs(amp - 1).max())}}
 
 
-CASES = {"translate": case_translate, "propagate": case_propagate, "adjoint": case_adjoint,
+def case_variants(E, p):
+    """the operator variants of the other model classes: ProbeParametric.forward (sub-pixel shifted probe),
+    ObjectDIP.forward (network output -> patches), and the forward pass built from them"""
+    np, torch, pu = E.np, E.torch, E.pu
+    rng = np.random.default_rng(p["seed"])
+    n1, n2 = p["roi"]
+    ns = p["slices"]
+    pt = E.pt_parametric((n1, n2), ns)
+    fails = []
+    H, W = (int(v) for v in pt.dset._obj_shape_full_2d((0, 0)))
+    B = p["batch"]
+    desc = "ROI %s, %d slice(s), %d pattern(s), ObjectDIP(%s, %s network) + ProbeParametric" % (
+        (n1, n2), ns, B, p["obj_type"], "complex" if p["complex_model"] else "real")
+    old_thick = pt.slice_thicknesses
+    old_props = getattr(pt, "_propagators", None)
+    try:
+        if ns > 1:
+            pt.slice_thicknesses = list(p["thick"])
+        with torch.no_grad():
+            pt.compute_propagator_arrays()
+            probe = pt.probe_model.probe                                       # (1, n1, n2) complex64
+            frac = torch.tensor(rng.uniform(-0.5, 0.5, size=(B, 2)), dtype=torch.float32)
+            shifted = pt.probe_model.forward(frac)                             # (1, B, n1, n2)
+            ref_shift = pu.fourier_shift_expand(probe, frac).swapaxes(0, 1)
+            odip = E.object_dip(ns, H, W, p["obj_type"], p["complex_model"], p["seed"])
+            r0 = rng.integers(-H, 2 * H, size=B)
+            c0 = rng.integers(-W, 2 * W, size=B)
+            idx = _ref_patch_indices(E, (n1, n2), H, W, r0, c0)
+            idx_t = torch.tensor(idx, dtype=torch.int32)
+            patches_t = odip.forward(idx_t)
+            net_out = odip.model(odip.model_input)[0]
+            descan = torch.tensor(rng.uniform(-1.5, 1.5, size=(B, 2)), dtype=torch.float32)
+            _pp, ov = pt.forward_operator(patches_t, shifted.clone(), descan)
+            I = _n(E, pt.detector_model.forward(ov))
+            vals = torch.tensor(_c(E, rng, idx.shape).astype(np.complex64))
+            scat = _n(E, pu.sum_patches(vals, idx_t, (H, W)))
+    finally:
+        if ns > 1:
+            pt.slice_thicknesses = old_thick
+        if old_props is not None:
+            pt._propagators = old_props
+    probe_n, shifted_n, patches, net = _n(E, probe), _n(E, shifted), _n(E, patches_t), _n(E, net_out)
+    en = float((np.abs(probe_n.astype(np.complex128)) ** 2).sum())
+    # ProbeParametric.forward: every shifted probe keeps the probe's total intensity, and is fourier_shift_expand of it
+    if shifted_n.shape != (1, B, n1, n2):
+        fails.append(("variant-probe-shape", "ProbeParametric.forward returned shape %s: %s" % (shifted_n.shape, desc)))
+    else:
+        e2 = (np.abs(shifted_n[0].astype(np.complex128)) ** 2).sum(axis=(-2, -1))
+        r = float(np.abs(e2 - en).max() / max(en, 1e-300))
+        if not r <= TOL_C64:
+            fails.append(("variant-probe-energy", "ProbeParametric.forward: shifted probes have total intensity %s, the probe %.9g "
+                          "(rel %.3g): %s" % (e2.tolist(), en, r, desc)))
+        if not _rel(E, shifted_n, _n(E, ref_shift), None) <= 1e-6:
+            fails.append(("variant-probe-shift", "ProbeParametric.forward is not fourier_shift_expand of the probe: " + desc))
+    # ObjectDIP.forward: the patches are the gathered network output (exp(i .) of it for a real-valued network)
+    full = np.exp(1j * net.astype(np.float64)) if not p["complex_model"] else net.astype(np.complex128)
+    want_p = full.reshape(ns, -1)[:, idx]
+    if patches.shape != want_p.shape or not _rel(E, patches, want_p, 1.0) <= 2e-6:
+        fails.append(("variant-object-gather", "ObjectDIP.forward does not return the network output gathered at the patch indices: " + desc))
+        return {"fails": fails, "coq": [], "info": {}}
+    # ... whose adjoint is sum_patches, slice by slice
+    lhs = complex((patches[0].astype(np.complex128) * _n(E, vals)).sum())
+    rhs = complex((full[0] * scat).sum())
+    scale = float(np.abs(patches[0] * _n(E, vals)).sum()) + 1e-300
+    if not abs(lhs - rhs) <= 5e-5 * scale:
+        fails.append(("variant-scatter-gather-adjoint", "<ObjectDIP patches, v> = %r but <network output, sum_patches(v)> = %r: %s" % (lhs, rhs, desc)))
+    # pure-phase / potential object from a real-valued network: unit-modulus patches and the intensity identity
+    if not p["complex_model"]:
+        r = float(np.abs(np.abs(patches) - 1).max())
+        if not r <= 1e-5:
+            fails.append(("variant-pure-phase-patches", "ObjectDIP (%s, real network) patches are not unit-modulus (%.3g): %s"
+                          % (p["obj_type"], r, desc)))
+        got = I.reshape(B, -1).sum(axis=1)
+        r = float(np.abs(got - en).max() / max(en, 1e-300))
+        if I.shape != (B, n1, n2) or not r <= TOL_PIPE:
+            fails.append(("variant-pure-phase-intensity", "forward pass (ProbeParametric shifted probes, ObjectDIP %s patches, %d slices, "
+                          "descan): summed predicted intensity per pattern %s != summed probe intensity %.9g (rel %.3g): %s"
+                          % (p["obj_type"], ns, got.tolist(), en, r, desc)))
+    return {"fails": fails, "coq": [], "info": {}}
+
+
+CASES = {"variants": case_variants, "translate": case_translate, "propagate": case_propagate, "adjoint": case_adjoint,
          "pure_phase": case_pure_phase, "fproj": case_fproj, "pipeline": case_pipeline}
 
 
@@ -606,12 +948,15 @@ def _gen(ctx: Ctx):
     r.shuffle(shapes)
     for i, sh in enumerate(shapes[:ctx.budget(14, len(shapes))] * ctx.budget(1, 8)):
         out.append({"kind": "translate", "shape": list(sh), "shifts": shifts(3), "seed": seed(),
-                    "int_shift": [r.randint(-8, 8), r.randint(-8, 8)], "backend": "torch" if i % 3 else "numpy", "coq": False})
+                    "int_shift": [r.randint(-8, 8), r.randint(-8, 8)], "backend": "torch" if i % 3 else "numpy", "coq": False,
+                    "dtype": "c64" if i % 4 == 1 else "c128", "layout": "strided" if i % 5 == 2 else "contig",
+                    "phase": i < ctx.budget(8, 60)})
     cs = list(SHAPES_COQ)
     r.shuffle(cs)
     for i, sh in enumerate(cs[:ctx.budget(8, len(cs))] * ctx.budget(1, 4)):
         out.append({"kind": "translate", "shape": list(sh), "shifts": shifts(2), "seed": seed(),
-                    "int_shift": [r.randint(-5, 5), r.randint(-5, 5)], "backend": "numpy" if i % 3 == 0 else "torch", "coq": True})
+                    "int_shift": [r.randint(-5, 5), r.randint(-5, 5)], "backend": "numpy" if i % 3 == 0 else "torch", "coq": True,
+                    "dtype": "c64" if i % 4 == 3 else "c128", "layout": "strided" if i % 4 == 2 else "contig"})
     # ---- propagation
     ts = list(SHAPES_TOY)
     r.shuffle(ts)
@@ -628,6 +973,9 @@ def _gen(ctx: Ctx):
                     "thick": [round(r.uniform(0.5, 20.0), 2), round(r.uniform(0.5, 20.0), 2)],
                     "sampling": samp,
                     "energy": energy, "tilt": tilt,
+                    "dtype": "c64" if i % 3 == 1 else "c128", "layout": "strided" if i % 4 == 2 else "contig",
+                    "probe_class": "parametric" if i % 5 == 3 else "pixelated",
+                    "phase": sh[0] * sh[1] <= 80 and i < ctx.budget(12, 80),
                     "coq": sh[0] * sh[1] <= 80 and i < ctx.budget(6, 40)})
     # ---- gather / scatter
     r.shuffle(ts)
@@ -635,6 +983,8 @@ def _gen(ctx: Ctx):
         B = r.randint(1, 4)
         out.append({"kind": "adjoint", "roi": list(sh), "slices": r.randint(1, 3), "seed": seed(),
                     "pad": [r.randint(0, 2), r.randint(0, 3)], "index_mode": "patch" if i % 3 != 2 else "random",
+                    "dtype": "c64" if i % 4 == 1 else "c128", "layout": "strided" if i % 4 == 3 else "contig",
+                    "wrap_both": i % 3 == 1,
                     "positions": [[round(r.uniform(-12, 24), 2), round(r.uniform(-12, 24), 2)] for _ in range(B)],
                     "coq": sh[0] * sh[1] <= 30 and i < ctx.budget(12, 60)})
     # ---- pure phase: every (slices, modes) combination
@@ -663,6 +1013,15 @@ def _gen(ctx: Ctx):
                 out.append({"kind": "fproj", "roi": list(sh), "modes": m, "batch": r.randint(2, 3), "seed": seed(),
                             "zero_frac": r.choice([0.0, 0.1, 0.3]), "amp_kind": ak, "psi_kind": pk,
                             "coq": pk == "random" and sh[0] * sh[1] <= (80 if m == 1 else 48) and rep < 3})
+    # ---- ProbeParametric / ObjectDIP variants of the operators
+    vcombos = [("pure_phase", False), ("potential", False), ("complex", True)]
+    r.shuffle(ts)
+    for i in range(ctx.budget(6, 60)):
+        ot, cm = vcombos[i % 3]
+        nsl = 1 + (i // 3 + i) % 3
+        out.append({"kind": "variants", "roi": list(ts[i % len(ts)]), "slices": nsl,
+                    "batch": r.randint(1, 3), "obj_type": ot, "complex_model": cm, "seed": seed(),
+                    "thick": [round(r.uniform(0.5, 15.0), 2) for _ in range(nsl - 1)]})
     # ---- the library's own forward pass
     for sh, s, m in [((6, 8), 2, 2), ((5, 6), 3, 1), ((7, 5), 1, 3), ((8, 10), 4, 2)][:ctx.budget(2, 4)]:
         out.append({"kind": "pipeline", "roi": list(sh), "slices": s, "modes": m, "seed": seed()})
@@ -673,7 +1032,32 @@ def _gen(ctx: Ctx):
 def _judge(ctx, case, res, vals, report=True):
     """compare the Coq values of one case; returns list of (key, what)"""
     bad = []
+    seen = {}
     for (label, _expr, tol, kind), v in zip(res["coq"], vals):
+        if kind == "turns":
+            # v: the model's exact phases (turns) of one array; the implementation's angle must agree modulo one turn
+            k = seen.get(label, 0)
+            seen[label] = k + 1
+            got, tl, what = res["info"]["turns"][label][k]
+            import numpy as np
+            d = _turn_diff(got, v)
+            if d is None:
+                bad.append(("%s-phase-correspondence" % case["kind"], "model %s has shape of %d rows, implementation %s: %s"
+                            % (label, len(v), got.shape, what)))
+                continue
+            if isinstance(tl, tuple):          # ("rad", absolute, relative to the phase magnitude)
+                mag = np.array([[abs(float(w)) for w in row] for row in v]) * 2 * math.pi
+                lim = (tl[1] + tl[2] * mag) / (2 * math.pi)
+            else:
+                lim = tl
+            if not bool(np.all(d <= lim)):
+                kk = np.unravel_index(int(np.argmax(d - lim)), d.shape)
+                bad.append(("%s-phase-correspondence" % case["kind"],
+                            "the phase of the array the code builds is not the model's exponent: element %s: model %.9f turns "
+                            "(mod 1), implementation %.9f turns, |difference| %.3g > %.3g: %s"
+                            % (tuple(int(q) for q in kk), float(Fraction(v[kk[0]][kk[1]]) % 1), float(got[kk] % 1.0), float(d[kk]),
+                               float(lim[kk]) if hasattr(lim, "shape") else lim, what)))
+            continue
         if kind == "ints":
             want = res["info"]["ints"][label]
             if list(v) != list(want):
@@ -691,6 +1075,23 @@ def _slim(case):
     return json.loads(json.dumps(case))
 
 
+def _eval_exprs(ctx, name, items):
+    """items: [(label, expr, tol, kind)]; the exact-rational phase expressions need Q_scope (PREK), the others PRE;
+    returns the values in the order of items"""
+    a = [k for k, it in enumerate(items) if it[3] != "turns"]
+    b = [k for k, it in enumerate(items) if it[3] == "turns"]
+    vals = [None] * len(items)
+    if a:
+        va = ctx.coq_eval(name, PRE, [items[k][1] for k in a], shard=max(1, min(6, (len(a) + 15) // 16)))
+        for k, v in zip(a, va):
+            vals[k] = v
+    if b:
+        vb = ctx.coq_eval(name + "_phase", PREK, [items[k][1] for k in b], shard=max(1, (len(b) + 3) // 4))
+        for k, v in zip(b, vb):
+            vals[k] = v
+    return vals
+
+
 def run(ctx: Ctx):
     for rel, names in [
         ("diffractive_imaging/ptycho_utils.py", ["fourier_shift_expand", "fourier_translation_operator", "sum_patches_base", "sum_patches"]),
@@ -698,9 +1099,11 @@ def run(ctx: Ctx):
                                                       "PtychographyBase.estimate_amplitudes", "PtychographyBase.estimate_intensities",
                                                       "PtychographyBase._propagate_array", "PtychographyBase.compute_propagator_arrays"]),
         ("diffractive_imaging/ptychography.py", ["Ptychography.fourier_projection", "Ptychography.gradient_step"]),
-        ("diffractive_imaging/probe_models.py", ["ProbeBase._compute_propagator_arrays"]),
+        ("diffractive_imaging/probe_models.py", ["ProbeBase._compute_propagator_arrays", "ProbePixelated.forward",
+                                                 "ProbeParametric.forward"]),
         ("diffractive_imaging/detector_models.py", ["DetectorPixelated.forward"]),
-        ("diffractive_imaging/object_models.py", ["ObjectBase._propagate_array", "ObjectBase._get_obj_patches"]),
+        ("diffractive_imaging/object_models.py", ["ObjectBase._propagate_array", "ObjectBase._get_obj_patches",
+                                                  "ObjectPixelated.forward", "ObjectPixelated.backward", "ObjectDIP.forward"]),
         ("diffractive_imaging/dataset_models.py", ["PtychographyDatasetBase._set_patch_indices"]),
     ]:
         ctx.hash_sources(rel, names)
@@ -745,9 +1148,20 @@ def run(ctx: Ctx):
         results.append(res)
         shape = tuple(case.get("shape") or case.get("roi"))
         dk = (case["kind"], shape, case.get("slices"), case.get("modes"), case.get("amp_kind"), case.get("psi_kind"),
-              case.get("index_mode"), case.get("backend"), tuple(case.get("tilt", ())) != (0.0, 0.0), bool(case.get("coq")))
+              case.get("index_mode"), case.get("backend"), tuple(case.get("tilt", ())) != (0.0, 0.0), bool(case.get("coq")),
+              case.get("dtype"), case.get("layout"), case.get("wrap_both"), case.get("probe_class"), case.get("obj_type"))
         ctx.count(dk, nontrivial=True)
         ctx.dist("kind/" + case["kind"])
+        if case.get("dtype") == "c64":
+            ctx.dist("input/complex64")
+        if case.get("layout") == "strided":
+            ctx.dist("input/non-contiguous")
+        if res["info"].get("wraps_both"):
+            ctx.dist("adjoint/patch-wraps-both-axes")
+        if case.get("probe_class") == "parametric" or case["kind"] == "variants":
+            ctx.dist("variant/ProbeParametric")
+        if case["kind"] == "variants":
+            ctx.dist("variant/ObjectDIP-%s" % case["obj_type"])
         ctx.dist("shape/%s" % ("odd" if (shape[0] % 2 or shape[1] % 2) else "even") + ("-square" if shape[0] == shape[1] else "-nonsquare"))
         if "slices" in case and case["kind"] in ("pure_phase", "pipeline"):
             ctx.dist("slices/%d" % case["slices"])
@@ -763,12 +1177,13 @@ def run(ctx: Ctx):
     exprs, owner = [], []
     for ci, res in enumerate(results):
         for item in res["coq"]:
-            exprs.append(item[1])
+            exprs.append(item)
             owner.append(ci)
     ctx.dist("coq/expressions", len(exprs))
+    ctx.dist("coq/phase-expressions", sum(1 for it in exprs if it[3] == "turns"))
     if exprs:
         try:
-            vals = ctx.coq_eval("corr", PRE, exprs, shard=max(1, min(6, (len(exprs) + 15) // 16)))
+            vals = _eval_exprs(ctx, "corr", exprs)
         except RuntimeError as e:
             ctx.violation("model-evaluation", "the Coq model could not be evaluated: %s" % str(e)[-600:], {"exprs": len(exprs)},
                           found_input=False)
@@ -810,8 +1225,11 @@ def replay(ctx: Ctx, path):
         print("CORRESPONDENCE FAIL [%s]: %s" % (key, what))
         rc = 1
     if res["coq"]:
-        vals = ctx.coq_eval("replay", PRE, [c[1] for c in res["coq"]], shard=4)
+        vals = _eval_exprs(ctx, "replay", res["coq"])
         for (label, _e, tol, kind), v in zip(res["coq"], vals):
+            if kind == "turns":
+                print("  model phases `%s`: %d x %d exact rationals" % (label, len(v), len(v[0]) if v else 0))
+                continue
             print("  model vs impl `%s`: %s (tol %.1g)" % (label, _pairs(v) if kind == "cmp" else v, tol))
         for key, what in _judge(ctx, case, res, vals):
             print("CORRESPONDENCE FAIL [%s]: %s" % (key, what))
